@@ -30,7 +30,10 @@ def gen_graph(rng, n, shape=None):
 
 def write_project(pr, g, top="all", extra=None):
     for nm, s in g.items():
-        L = ['echo "B $$ %s $(date +%%s%%N)" >>"$VERIF_WORK"' % nm]
+        # the end record is written by an EXIT trap: a script that stops early (sh -e on a failing redo-ifchange, exit 3)
+        # has ended too, and must not look like an execution that is still under way
+        L = ['trap \'echo "E $$ %s $(date +%%s%%N)" >>"$VERIF_WORK"\' EXIT' % nm,
+             'echo "B $$ %s $(date +%%s%%N)" >>"$VERIF_WORK"' % nm]
         if s.get("always"):
             L.append("redo-always")
         if s["deps"]:
@@ -39,7 +42,6 @@ def write_project(pr, g, top="all", extra=None):
         if s["dur"]:
             L.append("sleep %.3f" % (s["dur"] / 1000.0))
         L.append('echo "stderr of %s" >&2' % nm)
-        L.append('echo "E $$ %s $(date +%%s%%N)" >>"$VERIF_WORK"' % nm)
         if s.get("fail"):
             L.append("exit 3")
         body = "cat " + " ".join(s["deps"]) + " 2>/dev/null; echo %s" % nm if s["deps"] else "echo %s" % nm
@@ -131,11 +133,14 @@ def run_cmds(pr, cmds, env=None, timeout=60, stagger=0.0, pass_fds=()):
 def max_overlap(work):
     """Maximum number of simultaneously open S..E sections, and per-target overlap of B..E sections."""
     pts = []
-    for k, pid, name, ts in work:
+    open_s = set()
+    for k, pid, name, ts in sorted(work, key=lambda e: e[3]):
         if k == "S":
             pts.append((ts, 1))
-        elif k == "E":
+            open_s.add(pid)
+        elif k == "E" and pid in open_s:      # a script that ended before it started working has no section to close
             pts.append((ts, -1))
+            open_s.discard(pid)
     pts.sort()
     cur = mx = 0
     for _, d in pts:
